@@ -45,7 +45,24 @@ def rand_case(rng):
         return dict(sequence=seq, spec=d, evaluated=s2)
     p = rng.choice([0.0, 0.1, 0.4])
     s2 = "".join(ch if rng.random() > p else rng.choice("ATGC") for ch in seq)
-    return dict(sequence=seq, spec=d, evaluated=s2)
+    case = dict(sequence=seq, spec=d, evaluated=s2)
+    if d["kind"] in ("cai", "rca", "rare") and rng.random() < 0.4:
+        other = rng.choice([k_ for k_ in ("cai", "rca") if k_ != d["kind"]] or ["rca"])
+        first = dict(kind=other, location=d["location"], table_seed=d["table_seed"], boost=1)
+        if other == "rca":
+            first["orig_table_seed"] = d["table_seed"]
+        case["table_first_used_by"] = first
+        if d["kind"] == "cai" and rng.random() < 0.5:
+            # a sequence of most-frequent codons: the goal is met, the score must be the declared best
+            import random as _r
+            table = hard.user_table(_r.Random(d["table_seed"]))
+            a, b, st = d["location"]
+            comp = {"A": "T", "T": "A", "G": "C", "C": "G"}
+            aas = list(table.keys())
+            best = "".join(max(sorted(table[aa]), key=lambda c: table[aa][c]) for aa in [rng.choice(aas) for _ in range((b - a) // 3)])
+            region = best if st != -1 else "".join(comp[c] for c in reversed(best))
+            case["evaluated"] = s2[:a] + region + s2[b:]
+    return case
 
 
 def goal_met_exact(d, s):
@@ -71,7 +88,12 @@ def goal_met_exact(d, s):
 def oracle_case(case, out):
     seq, d, s2 = case["sequence"], case["spec"], case["evaluated"]
     try:
-        spec, stub = bspec.init_spec(d, seq)
+        if case.get("table_first_used_by"):
+            with hard.shared_tables():
+                bspec.build(case["table_first_used_by"])
+                spec, stub = bspec.init_spec(d, seq)
+        else:
+            spec, stub = bspec.init_spec(d, seq)
     except Exception:
         return 0
     stub.sequence = s2
